@@ -112,7 +112,9 @@ func genCase(t *rapid.T) Case {
 	case "values":
 		switch rapid.IntRange(0, 3).Draw(t, "ek") {
 		case 0:
-			c.Expr = rapid.SampledFrom([]string{".", ".[]", "..", ".a", "length", "keys", "[.[] | select(. != null)]", ".a = 1", ".[0] = \"x\"", "del(.a)", ". as $x | [$x]", "to_entries", "[length, length]", "sort_keys(.)", "(.. | select(tag == \"!!int\")) |= . + 1"}).Draw(t, "simple")
+			c.Expr = rapid.SampledFrom([]string{".", ".[]", "..", ".a", "length", "keys", "[.[] | select(. != null)]", ".a = 1", ".[0] = \"x\"", "del(.a)", ". as $x | [$x]", "to_entries", "[length, length]", "sort_keys(.)", "(.. | select(tag == \"!!int\")) |= . + 1",
+				// literals of the expression updated in place: the parsed expression is shared by all documents
+				"[.. | select(tag == \"!!int\")] | (.[] as $i ireduce (0; . += $i))", "(\"a\" | . += \"b\")", "[length] | .[0] += 1", "{\"n\": 0} | .n += 1"}).Draw(t, "simple")
 		default:
 			c.AST = gen.CoreExpr(t, first, 2)
 			c.Expr = ref.Print(c.AST)
